@@ -13,3 +13,5 @@ import MimicProps.C06
 #print axioms MimicProps.C06.read_param_value_is_code
 #print axioms MimicProps.C06.parse_com_stmt_execute_is_code
 #print axioms MimicProps.C06.code_literal_lexes_back
+#print axioms MimicProps.C06.send_long_data_is_code
+#print axioms MimicProps.C06.reset_abandons_long_data_code
